@@ -244,8 +244,15 @@ def subspan(rep, c):
         r.instance(key, where(b["body"]))
         gets = [x for x in walk(b["body"]) if kind(x) == "MethodCall" and x.get("path") == "core::str::<impl str>::get"]
         own = []
+        blets = hirq.lets(b["body"])
         for g in gets:
             rc = peel(g["recv"])
+            if kind(rc) == "Path" and rc.get("res") == "local" and rc["id"] in blets:
+                rc = peel(blets[rc["id"]][0])          # `let text = self.as_str(); text.get(..)`
+            if kind(rc) == "Match" and rc.get("src") == "try" and kind(rc.get("scrut")) == "Call" and rc["scrut"]["args"] \
+                    and any(peel(rc["scrut"]["args"][0]) is o for o in own):
+                own.append(g)     # `text.get(..end)?.get(start..)`: a cut of what the first cut left
+                continue
             if kind(rc) == "MethodCall" and rc.get("path") == SPAN + "::as_str":
                 own.append(g)
             elif kind(rc) == "Index" and kind(peel(rc["base"])) == "Field" and peel(rc["base"])["name"] == "input":
@@ -267,6 +274,13 @@ def subspan(rep, c):
                     node = g[1] if g[0] != "let" else g[1].get("init")
                     if node is not None and any(y is o for y in walk(node if g[0] != "arm" else g[1]["scrut"]) for o in own):
                         ok = True
+            if not ok:
+                # `text.get(range)?;` as a statement of its own before the literal: decided path by path
+                try:
+                    reach = [ev for (ev, o) in hirq.exits(hirq.PathEnum(b).paths()) if any(e.node is x for e in ev)]
+                    ok = bool(reach) and all(hirq.option_outcome(ev, lambda y: any(y is o for o in own)) == "some" for ev in reach)
+                except hirq.TooManyPaths:
+                    ok = False
             if not ok:
                 r.violation(key, where(x), "Span::%s builds the sub-span on a path where `get` on the span's own text has "
                             "not succeeded" % key)
@@ -680,7 +694,8 @@ def marker(rep, c):
     for b in c.bodies:
         if not in_error_module(b) or b.get("body") is None or b.get("exp") or b.get("impl_trait"):
             continue
-        if any(kind(x) == "Lit" and x.get("v") in ("^", "'^'") for x in walk(b["body"])) and calls_start(b["body"]):
+        if any(kind(x) == "Lit" and x.get("v") in ("^", "'^'") for x in walk(b["body"])) and (calls_start(b["body"]) or any(
+                kind(x) == "Match" and "LineColLocation" in str(x.get("sty", "")) for x in walk(b["body"]))):
             cands.append(b)
     if not cands:
         r.lost("the marker-row function of pest::error::Error (pushes '^', reads self.start())")
@@ -693,6 +708,25 @@ def marker(rep, c):
         cols = [lid for lid, (init, st) in lets.items() if init is not None and modes.get(lid) and calls_start(init)]
         if not cols:
             r.instance(b["name"] + ":immutable", where(b["body"]), "the start column is never rewritten")
+            # the value spelling: the function takes the location apart itself and picks the marker's columns by
+            # comparing the two column bindings of the Span pattern - that comparison must be strict
+            for m in walk(b["body"]):
+                if not (kind(m) == "Match" and "LineColLocation" in str(m.get("sty", ""))):
+                    continue
+                for arm in m["arms"]:
+                    if not any(str(v).endswith("LineColLocation::Span") for v in hirq.pat_variants(arm["pat"])):
+                        continue
+                    ids = set(bid for (bid, _nm) in hirq.pat_bindings(arm["pat"]))
+                    for x in walk(arm["body"]):
+                        if kind(x) == "Binary" and x["op"] in ("<", ">", "<=", ">=") and hirq.local_id(x["l"]) in ids \
+                                and hirq.local_id(x["r"]) in ids:
+                            key = "%s:order" % b["name"]
+                            r.instance(key, where(x), hirq.expr_text(x)[:40])
+                            if x["op"] in ("<=", ">="):
+                                r.violation(key, where(x),
+                                            "%s chooses the marker's columns under `%s`, which also holds when the end "
+                                            "column equals the start column: for an empty span the marker is moved left "
+                                            "of the reported column" % (b["name"], hirq.expr_text(x)[:40]))
             continue
         col = cols[0]
         writes = []
@@ -831,14 +865,28 @@ def linetext(rep, c):
     for b in c.bodies:
         if not in_error_module(b) or b.get("body") is None or b.get("exp") or not b.get("exported"):
             continue
-        builds = any(kind(x) == "Struct" and str(x.get("path", "")).endswith(("error::Error", "error::ErrorInner")) for x in walk(b["body"]))
+        # the constructor and the private helpers of the error module it calls (depth 2): where the literal is built and
+        # where the line text is prepared may have been moved out of the constructor itself
+        scope, frontier = [b], [b]
+        for _ in range(2):
+            nxt = []
+            for f in frontier:
+                for (cal, _n) in hirq.call_sites(f["body"]):
+                    h = c.fn(cal) if isinstance(cal, str) else None
+                    if h is not None and in_error_module(h) and h.get("body") is not None and not h.get("exported") \
+                            and not h.get("exp") and all(h is not s for s in scope):
+                        scope.append(h)
+                        nxt.append(h)
+            frontier = nxt
+        builds = any(kind(x) == "Struct" and str(x.get("path", "")).endswith(("error::Error", "error::ErrorInner"))
+                     for s in scope for x in walk(s["body"]))
         reads_line = any(kind(x) == "MethodCall" and x["m"] in ("line_of", "lines", "lines_span") for x in walk(b["body"]))
         if not (builds and reads_line):
             continue
         n += 1
         key = b["path"].replace("pest::error::", "")
-        r.instance(key, where(b["body"]))
-        for x in walk(b["body"]):
+        r.instance(key, where(b["body"]), "%d function(s)" % len(scope))
+        for x in (y for s in scope for y in walk(s["body"])):
             if kind(x) == "MethodCall" and x["m"] in TRIMS and "str" in str(x.get("path", "")):
                 r.violation(key + ":" + x["m"], where(x),
                             "%s trims white space off the line text (`%s`): trailing blanks of the input line are part of "
@@ -1044,7 +1092,7 @@ def short(b):
 # ------------------------------------------------------------------ STOREDLINE
 
 def storedline(rep, c):
-    r = rep.rule("C10.STOREDLINE", 3,
+    r = rep.rule("C10.STOREDLINE", 2,
                  "the line texts an error stores (ErrorInner.line / continued_line, printed verbatim between the gutter "
                  "rows) have had their line-break characters rewritten - made visible or removed - on every path: a "
                  "stored raw '\\n' / '\\r\\n' puts a gutter-less row between the reported line and its marker row")
@@ -1106,6 +1154,6 @@ def storedline(rep, c):
                                 "under the reported line" % (short(b), hirq.expr_text(nd)[:80], f["name"]))
                     break
             # functional update `..base` would carry lines over unseen
-    if n < 4:
-        r.lost("ErrorInner construction sites (found %d line fields; new_from_pos and new_from_span were confirmed by "
-               "hand)" % n)
+    if n < 2:
+        r.lost("ErrorInner construction sites (found %d line fields; a literal with `line` and `continued_line` was "
+               "confirmed by hand in new_from_pos and new_from_span)" % n)
